@@ -5,6 +5,8 @@ endian codecs (C15).
 import Ufw.Model.Varint
 import Ufw.Model.Crc
 import Ufw.Spec.Crc
+import Ufw.Gen.BinFmtLE
+import Ufw.Spec.Endian
 import Driver.Loop
 
 open Ufw
@@ -104,6 +106,107 @@ def crcLine (toks : List String) : String :=
     | _, _ => "bad-op"
   | _ => "bad-op"
 
+/-! endian codecs: left view = generated definitions (little-endian host, as compiled here),
+    right view = the arithmetic spec selected by the function's name -/
+
+structure BfName where
+  op : String      -- ref / set
+  kind : Char      -- u s f
+  bits : Nat
+  order : Char     -- n b l
+
+def parseBfName (name : String) : Option BfName :=
+  match name.splitOn "_" with
+  | ["bf", op, rest] =>
+    match rest.toList with
+    | k :: more =>
+      let digits := more.takeWhile Char.isDigit
+      let ord := more.dropWhile Char.isDigit
+      match (String.ofList digits).toNat?, ord with
+      | some b, [o] => some ⟨op, k, b, o⟩
+      | _, _ => none
+    | [] => none
+  | _ => none
+
+def retWidth (bits : Nat) : Nat := if bits ≤ 16 then 16 else if bits ≤ 32 then 32 else 64
+
+def bfLine (toks : List String) : String :=
+  open Ufw.Gen.BinFmtLE in
+  open Ufw.Spec.Endian in
+  match toks with
+  | ["bf.ref", name, hex, _align] =>
+    match parseHex hex, parseBfName name, refTable.find? (·.1 == name) with
+    | some octs, some nm, some (_, arity, rw, f) =>
+      if octs.length ≠ arity then "bad-op" else
+      let big := nm.order == 'b'     -- native = little on this host
+      let sp := if nm.kind == 's' then patternOfInt rw (loadS big octs) else loadU big octs
+      s!"{hexNat (f octs) (rw / 4)} ## {hexNat sp (rw / 4)}"
+    | _, _, _ => "bad-op"
+  | ["bf.set", name, hex, _align] =>
+    match parseHexNat hex, parseBfName name, setTable.find? (·.1 == name) with
+    | some v, some nm, some (_, _pw, ret, f) =>
+      let big := nm.order == 'b'
+      s!"ret={ret} out={hexOf (f v)} pre=ok ## ret={nm.bits / 8} out={hexOf (store big (nm.bits / 8) v)} pre=ok"
+    | _, _, _ => "bad-op"
+  | ["bf.swap", name, hex] =>
+    match parseHexNat hex, valTable.find? (·.1 == name) with
+    | some v, some (_, pw, f) =>
+      let bits := (name.drop 7).toString.toNat?.getD 0
+      s!"{hexNat (f v) (pw / 4)} ## {hexNat (swap (bits / 8) v) (pw / 4)}"
+    | _, _ => "bad-op"
+  | ["bf.inrange", name, hex] =>
+    match parseHexNat hex, predTable.find? (·.1 == name) with
+    | some v, some (_, pw, f) =>
+      let signed := (name.drop 11).toString.startsWith "s"
+      let bits := (name.drop 12).toString.toNat?.getD 0
+      let sp := if signed then inRangeS bits (BitVec.ofNat pw v).toInt else inRangeU bits v
+      s!"{f v} ## {sp}"
+    | _, _ => "bad-op"
+  | ["bf.sweep", name, lo, hi] =>
+    match lo.toNat?, hi.toNat? with
+    | some lo, some hi =>
+      let M := 18446744073709551557
+      let mix (acc r : Nat) : Nat := (acc * 31 + r + 1) % M
+      let octsOf (n v : Nat) : List Octet := (List.range n).map fun k => BitVec.ofNat 8 (v / 256 ^ k)
+      let run (f : Nat → Nat) : Nat := Id.run do
+        let mut acc := 0
+        for v in [lo:hi] do
+          acc := mix acc (f v)
+        return acc
+      match parseBfName name with
+      | some nm =>
+        let big := nm.order == 'b'
+        if nm.op == "ref" then
+          match refTable.find? (·.1 == name) with
+          | some (_, arity, rw, f) =>
+            let m := run fun v => f (octsOf arity v)
+            let sp := run fun v =>
+              if nm.kind == 's' then patternOfInt rw (loadS big (octsOf arity v)) else loadU big (octsOf arity v)
+            s!"{m} ## {sp}"
+          | none => "bad-op"
+        else
+          match setTable.find? (·.1 == name) with
+          | some (_, _, _, f) =>
+            let m := run fun v => (f v).foldl (fun a o => mix a o.toNat) 0
+            let sp := run fun v => (store big (nm.bits / 8) v).foldl (fun a o => mix a o.toNat) 0
+            s!"{m} ## {sp}"
+          | none => "bad-op"
+      | none =>
+        match valTable.find? (·.1 == name), predTable.find? (·.1 == name) with
+        | some (_, _, f), _ =>
+          let bits := (name.drop 7).toString.toNat?.getD 0
+          s!"{run f} ## {run fun v => swap (bits / 8) v}"
+        | _, some (_, pw, f) =>
+          let signed := (name.drop 11).toString.startsWith "s"
+          let bits := (name.drop 12).toString.toNat?.getD 0
+          let m := run fun v => if f v then 1 else 0
+          let sp := run fun v =>
+            if (if signed then inRangeS bits (BitVec.ofNat pw v).toInt else inRangeU bits v) then 1 else 0
+          s!"{m} ## {sp}"
+        | _, _ => "bad-op"
+    | _, _ => "bad-op"
+  | _ => "bad-op"
+
 def stepLine (_ : Unit) (toks : List String) : Unit × String :=
   ((), match toks with
   | ["vi.len", ty, v] =>
@@ -131,7 +234,7 @@ def stepLine (_ : Unit) (toks : List String) : Unit × String :=
     match Ty.ofString ty, v.toInt? with
     | some t, some x => let e := encode (t.pattern x); s!"ok:{e.length} out={hexOf e}"
     | _, _ => "bad-op"
-  | t :: rest => if t.startsWith "crc." then crcLine (t :: rest) else "bad-op"
+  | t :: rest => if t.startsWith "crc." then crcLine (t :: rest) else if t.startsWith "bf." then bfLine (t :: rest) else "bad-op"
   | _ => "bad-op")
 
 end Driver.Codec
